@@ -67,8 +67,34 @@ func HarnessC20ConfEndpoint() {
 	if optPath {
 		opts = append(opts, WithURLPath("/optp"))
 	}
+	// or a complete URL given as an option, with or without a path (a URL
+	// without a path means the default signal path, not a path from the
+	// environment)
+	optURL := 0
+	if !optEndpoint && !optPath {
+		optURL = vndChoice(3)
+	}
+	switch optURL {
+	case 1:
+		opts = append(opts, WithEndpointURL("http://url:5"))
+	case 2:
+		opts = append(opts, WithEndpointURL("https://url:5/u"))
+	}
 	c := c20Build(grpc, opts)
 	vndReach("resolved")
+	if optURL != 0 {
+		vndReach("option-url")
+		vndAssert(c.Endpoint == "url:5", "endpoint-from-highest-precedence-source")
+		if !grpc {
+			want := c20SigPath
+			if optURL == 2 {
+				want = "/u"
+			}
+			vndAssert(c.URLPath == want, "url-path-from-the-option-url-or-the-default")
+		}
+		vndAssert(c.Insecure == (optURL == 1), "insecure-from-the-scheme-of-the-winning-endpoint")
+		return
+	}
 	if grpc {
 		// the gRPC target is host + path of the chosen URL; there is no URL path setting
 		want := "localhost:4317"
